@@ -290,6 +290,13 @@ theorem garbage_bounded (cfg : Cfg) (le : α → α → Bool) (init : List α) (
   runState_bounded cfg le ops _ (start_refines init).1
     (foldl_add_bounded cfg init _ inv_empty (bounded_noDead cfg _ inv_empty.toInvC rfl))
 
+/-- ... and with any number of live sets, for each of them -/
+theorem machine_garbage_bounded (cfg : Cfg) (le : α → α → Bool) (init : List α) (ops : List (MOp α)) :
+    ∀ s ∈ (mrunState cfg le (mstart init) ops).regs,
+      s.dead.length ≤ cfg.limit ∧ (s.items.length - s.idx.length) * cfg.factor ≤ s.items.length :=
+  mrunState_bounded cfg le ops _ (by simp [(start_refines init).1])
+    (by simp only [List.mem_singleton, forall_eq]; exact ofList_bounded cfg init) (by simp)
+
 /-- one step: `_cull` restores both bounds whatever it is handed -/
 theorem cull_restores_bounds (cfg : Cfg) (s : ISet α) (h : InvC s) :
     (cull cfg s).dead.length ≤ cfg.limit ∧
